@@ -8,12 +8,12 @@ prop("C03", "model_checking",
      SHARED["EXPL"] + " C03 reads the return-value clause of fibre_scheduler_next's contract (sequential harness: exact value in every case, with the state after the body ran) and adds the interruption "
      "harness: the same pass compiled against a shadow <stdatomic.h> whose every atomic operation first lets interrupt handlers post fibre_run_atomic requests; a ghost flag records whether a request was "
      "pending at the final check of the atomic queue and the obligation is 'pending at the final check => the call returns its time argument'.",
-     Q + T + IQ + IT, trusted=SHARED["TRUST"] + ["interrupt handlers run to completion between two atomic operations of the main context (nested handlers included); at most AMAX arrivals per call"],
+     Q + T + IQ + IT, trusted=SHARED["TRUST"] + ["interrupt handlers run to completion between two atomic operations of the main context (nested handlers included)"],
      assumptions=SHARED["ASSUME"], mc=SHARED["mc"])
 claim("C03", "model_checking",
       "return-value clause of the fibre_scheduler_next step contract (CBMC, real code, abstract scheduler state) + the same pass under a shadow <stdatomic.h> that fires interrupt-context fibre_run_atomic requests before every atomic operation, ghost flag for 'pending at the final check'",
-      "For every invariant state of a pool of 3 / 4 fibres, every time argument and every body result the returned wake-up time is exactly: the time argument if the fibre yielded or anything is runnable or requested, else the earliest pending due time, else now+0x7fffffff; under interruption at any atomic operation (up to 2 / 3 arrivals per call) a request that completed before the final check forces the time argument.",
-      "Bounded pool and bounded number of arrivals per call (labelled bounded); handlers run to completion; handle_atomic_runq is substituted by its interruption contract (enforced under C06). Requests that complete after the final check are outside the statement.",
+      "For every invariant state of a pool of 3 / 4 fibres, every time argument and every body result the returned wake-up time is exactly: the time argument if the fibre yielded or anything is runnable or requested, else the earliest pending due time, else now+0x7fffffff; under interruption at any atomic operation (any number of arrivals, up to the queue's capacity, at each) a request that completed before the final check forces the time argument.",
+      "Bounded pool (labelled bounded); handlers run to completion; handle_atomic_runq is substituted by its interruption contract (enforced under C06). Requests that complete after the final check are outside the statement.",
       "DESIGN.md 5.C03")
 mut("C03", "wakeup-ignores-atomic-queue", [("librfn/fibre.c", "\tif (!messageq_empty(&kernel.atomic_runq) || !list_empty(&kernel.runq))\n\t\treturn kernel.now;", "\tif (!list_empty(&kernel.runq))\n\t\treturn kernel.now;")], r"C03", skip_tests=True)
 mut("C03", "wakeup-ignores-run-queue", [("librfn/fibre.c", "\tif (!messageq_empty(&kernel.atomic_runq) || !list_empty(&kernel.runq))\n\t\treturn kernel.now;", "\tif (!messageq_empty(&kernel.atomic_runq))\n\t\treturn kernel.now;")], r"C03", skip_tests=True)
